@@ -2,6 +2,7 @@
 (S1, S2, S3, P1, U1)."""
 from ..rules import proj_rules as P
 from ..rules import cache_rules as CA
+from ..rules import shape_rules as SH
 from ..rules.common import u1
 
 PROJ, HYP = P.PROJ, P.HYP
@@ -19,12 +20,13 @@ ENTRIES = [(PROJ, "ProjectiveObject." + m) for m in (
 
 
 def run(ctx):
-    P.rule_s1(ctx)
-    P.rule_s2(ctx)
-    P.rule_s3(ctx)
-    P.rule_p1(ctx)
-    CA.rule_c2(ctx, "ProjectiveObject")
-    u1(ctx, ENTRIES, min_functions=30)
+    ctx.do(P.rule_s1)
+    ctx.do(P.rule_s2)
+    ctx.do(P.rule_s3)
+    ctx.do(P.rule_p1)
+    ctx.do(CA.rule_c2, "ProjectiveObject")
+    ctx.do(SH.rule_sh3)
+    ctx.do(u1, ENTRIES, min_functions=30)
     ctx.r.assume("numerical equality of stored and recomputed derived data "
                  "and the effect of numerical queries (in-place row "
                  "normalisation is projectively neutral) are not decided")
